@@ -115,7 +115,9 @@ INVALID = [
     ("bad enum name", ["operational_mode=warm"]), ("bad enum name 2", ["swing_mode=diagonal"]), ("enum value out of range", ["operational_mode=99"]),
     ("enum value out of range 2", ["swing_mode=7"]), ("enum value out of range 3", ["aux_mode=3"]),
     ("non-numeric number", ["target_temperature=abc"]), ("non-numeric number 2", ["target_humidity=high"]),
-    ("list literal", ["target_temperature=[1]"]), ("bad bool", ["power_state=maybe"]), ("bad bool 2", ["eco=on"]),
+    ("list literal", ["target_temperature=[1]"]), ("nan", ["target_temperature=nan"]), ("inf", ["target_temperature=inf"]),
+    ("-inf", ["target_temperature=-inf"]), ("Infinity", ["target_temperature=Infinity"]), ("nan humidity", ["target_humidity=nan"]),
+    ("number with unit", ["target_temperature=21C"]), ("hex number", ["target_humidity=0x2g"]), ("bad bool", ["power_state=maybe"]), ("bad bool 2", ["eco=on"]),
     ("empty value", ["power_state="]), ("valid then invalid", ["power_state=True", "bogus=1"]), ("invalid then valid", ["bogus=1", "power_state=True"]),
     ("valid then read-only", ["target_temperature=20", "outdoor_temperature=5"]),
 ]
